@@ -29,7 +29,7 @@ NOMOD, INCREASE, DECREASE, SET = range(4)
 
 
 def fam_res(E, nb, supply_kind, fault_kinds, claims=True, mods=(NOMOD,), nested=False,
-            two=False, real=False, pmax=4, placements=True):
+            two=False, real=False, pmax=4, placements=True, reuse=False):
     names = ('x', 'y') if two else ('x',)
     cap = {n: E.num('cap_' + n, 0, 20, real=real) for n in names}
     kinds = [E.pick('kind%d' % i, 2) if claims else BORROW for i in range(nb)]
@@ -53,6 +53,12 @@ def fam_res(E, nb, supply_kind, fault_kinds, claims=True, mods=(NOMOD,), nested=
     supply = dict(cap)                 # what the supply should hold in total (harness ledger)
     phase = ['none'] * nb              # none | acq | held | rel | ('limbo', time of the fault)
     share_ok = []
+    S = {}
+    if reuse:
+        # second phase: the very borrow object of borrower 0 is entered again at 100, whatever
+        # happened to its first use (pseudo borrower nb in the ledger)
+        phase.append('none')
+        amt.append(amt[0])
 
     def level(n):
         return getattr(sup.levels, n)
@@ -67,6 +73,8 @@ def fam_res(E, nb, supply_kind, fault_kinds, claims=True, mods=(NOMOD,), nested=
             else:
                 log(i, 'borrow-call')
                 ctx = sup.borrow(**amt[i])
+                if i == 0:
+                    S['ctx0'] = ctx
             phase[i] = 'acq'
             try:
                 async with ctx as share:
@@ -103,6 +111,31 @@ def fam_res(E, nb, supply_kind, fault_kinds, claims=True, mods=(NOMOD,), nested=
             log(i, 'left')
         return run
 
+    async def reuser():
+        await (time + 100)
+        ctx = S.get('ctx0')
+        if ctx is None or not all(level(n) >= amt[0][n] for n in names):
+            return
+        before = {n: level(n) for n in names}
+        phase[nb] = 'acq'
+        async with ctx as share:
+            phase[nb] = 'held'
+            log('R', 'enter')
+            for n in names:
+                E.prove(EQ(getattr(share.levels, n), amt[0][n]),
+                        'reused-share-holds-exactly-its-amount',
+                        ('%s: the share offers %r for an amount of %r', n,
+                         getattr(share.levels, n), amt[0][n]))
+                E.prove(EQ(level(n), before[n] - amt[0][n]), 'reused-borrow-takes-its-amount')
+            # the whole share, and not more, can be claimed from it
+            async with share.claim(**amt[0]):
+                for n in names:
+                    E.prove(EQ(getattr(share.levels, n), 0), 'reused-share-holds-exactly-its-amount')
+            await (time + 1)
+            phase[nb] = 'rel'
+        phase[nb] = 'none'
+        log('R', 'left')
+
     async def modifier():
         await (time + md)
         if mod == INCREASE:
@@ -129,6 +162,8 @@ def fam_res(E, nb, supply_kind, fault_kinds, claims=True, mods=(NOMOD,), nested=
                     top.do(fn())
             if mod != NOMOD:
                 top.do(modifier())
+            if reuse:
+                top.do(reuser())
 
     def in_limbo(ph, t):
         # limbo lasts for the time step of the fault (the loop keeps one date object per step)
@@ -141,7 +176,7 @@ def fam_res(E, nb, supply_kind, fault_kinds, claims=True, mods=(NOMOD,), nested=
             E.prove(GE(lv, 0), 'level-never-negative', ('level %s = %r', n, lv))
             held = 0
             transit = 0
-            for i in range(nb):
+            for i in range(len(phase)):
                 ph = phase[i]
                 if ph == 'held':
                     held = held + amt[i][n]
@@ -161,6 +196,9 @@ def fam_res(E, nb, supply_kind, fault_kinds, claims=True, mods=(NOMOD,), nested=
     if out.exc is not None:
         return
     E.reach(Fault.NAMES[fault.kind])
+    if reuse and log.has('R', 'enter'):
+        E.reach('reused')
+        E.prove(log.has('R', 'left'), 'reused-borrow-completes')
     # quiescence: everything is back, unless a borrower waits forever for more than exists
     stuck = [i for i in range(nb) if phase[i] == 'acq']
     for n in names:
@@ -244,6 +282,14 @@ FAMILIES = [
                          nested=True, pmax=4, placements=False),
            reach=['nested-enter', 'nested-rejected'],
            bounds='nested borrow from the share of borrower 0'),
+    Family('reuse', fam_res,
+           quick=dict(nb=1, supply_kind='resources', fault_kinds=ALLF, claims=False, pmax=4,
+                      placements=False, reuse=True),
+           thorough=dict(nb=2, supply_kind='capacities', fault_kinds=ALLF, claims=False, pmax=5,
+                         reuse=True),
+           reach=['reused', 'cancel', 'interrupt', 'close', 'fault-while-acquiring'],
+           bounds='the borrow object of borrower 0 is entered a second time at 100, after its '
+                  'first use completed or was faulted at (c,p)'),
     Family('res_fault_real', fam_res,
            thorough=dict(nb=2, supply_kind='resources', fault_kinds=[Fault.NONE, Fault.CANCEL],
                          claims=False, real=True, pmax=4, placements=False),
